@@ -15,12 +15,12 @@ import json
 from .. import endpoint, gen, tlc
 from ..common import rmtree, scratch
 
-PARSED_VALUE = {"model": {"v": 1}, "text": "hello", "none": None, "list": [{"v": 1}, {"v": 2}], "int": 5, "t0int": None, "file": base64.b64encode(b"\x00\x01bytes").decode()}
+PARSED_VALUE = {"model": {"v": 1}, "text": "hello", "none": None, "list": [{"v": 1}, {"v": 2}], "int": 5, "t0int": None, "const": "accepted", "ndjson": '{"a": 1}\n{"a": 2}\n', "file": base64.b64encode(b"\x00\x01bytes").decode()}
 
 
 def judge(rep, op, served_status, how_served, raise_flag, variant, obs, tag) -> dict:
     documented = {r["status"]: r["how"] for r in op["rs"]}
-    typed = any(h in ("model", "text", "list", "int", "file") for h in documented.values())
+    typed = any(h in ("model", "text", "list", "int", "file", "const", "ndjson") for h in documented.values())
     sig = f"{tag}/rs={'+'.join(str(r['status']) + r['how'] for r in op['rs'])}/served={served_status}/{variant}"
     out = {"kind": "?"}
     if obs.get("no_function"):
